@@ -71,6 +71,38 @@ theorem search_trace (σ : Nat → Status) (lo hi : Nat) :
   obtain ⟨m, hm, h⟩ := stopLoop_trace σ (hi - lo) lo []
   exact ⟨m, hm, by simpa [stopSearch] using h⟩
 
+/-! ### searches with a ready-made (guessed-weights) decomposition -/
+
+/-- with `optimize_with_guessed_weights` a ready-made decomposition with `g` routes may be taken at
+`k = g`; still, an answer `r` means: `r` is that decomposition's size or was proven optimal, and every
+smaller tried `k` was proven infeasible (and was not the ready-made size) -/
+theorem given_sound (σ : Nat → Status) (given : Option Nat) (lo hi r : Nat)
+    (h : (givenSearch σ given lo hi).solved = some r) :
+    (given = some r ∨ σ r = .optimal) ∧ lo ≤ r ∧ r < hi ∧
+      ∀ j, lo ≤ j → j < r → σ j = .infeasible ∧ given ≠ some j := by
+  obtain ⟨h1, h2, h3, h4⟩ := givenLoop_sound σ given _ _ _ _ h
+  exact ⟨h1, h2, by omega, h4⟩
+
+/-- an inconclusive status before any accepted `k` ends the search unsolved — the ready-made
+decomposition is never used as a fallback -/
+theorem given_no_answer_after_inconclusive (σ : Nat → Status) (given : Option Nat) (lo hi j : Nat)
+    (hj1 : lo ≤ j) (hj : σ j = .other) (hg : ∀ g, given = some g → j < g)
+    (hbefore : ∀ i, lo ≤ i → i < j → σ i ≠ .optimal) :
+    (givenSearch σ given lo hi).solved = none := by
+  cases hs : (givenSearch σ given lo hi).solved with
+  | none => rfl
+  | some r =>
+    obtain ⟨h1, h2, _, h4⟩ := given_sound σ given lo hi r hs
+    rcases Nat.lt_trichotomy r j with hlt | heq | hgt
+    · rcases h1 with h1 | h1
+      · have := hg r h1; omega
+      · exact absurd h1 (hbefore r h2 hlt)
+    · subst heq
+      rcases h1 with h1 | h1
+      · have := hg r h1; omega
+      · rw [hj] at h1; cases h1
+    · have := (h4 j hj1 hgt).1; rw [hj] at this; cases this
+
 /-! ### `MinFlowDecompCycles` (elapsed-time check after every k) -/
 
 theorem timed_sound (σ : Nat → Status) (late : Nat → Bool) (lo hi k : Nat)
